@@ -126,6 +126,7 @@ def mgDist (args _impl : List String) : Option (String × String) := do
     match exec ext 0 ini (State.ofVars [("arg0", .int iv), ("arg1", .nonNil), ("arg2", .nonNil)]) with
     | .returned _ _ => pure (pass, "ok")
     | .error m => pure (mgErr m, "ok")
+    | .panicked _ => pure ("mg-error:panicked", "ok")
     | .normal s0 =>
       let r := Id.run do
         let mut s := s0
